@@ -7,7 +7,7 @@ use std::cmp;
 use std::collections::{BTreeMap, BinaryHeap};
 use std::rc::Rc;
 
-#[derive(PartialEq, Ord, Eq, Debug)]
+#[derive(PartialEq, Ord, Eq, Debug, Clone)]
 pub struct Factors(pub usize, pub Vec<Rc<String>>);
 
 impl cmp::PartialOrd for Factors {
@@ -22,10 +22,25 @@ pub fn factorize(
     value: &Number,
     quantities: &BTreeMap<Dimensionality, Rc<String>>,
 ) -> BinaryHeap<Factors> {
+    // The result only depends on the dimensionality, and the same
+    // intermediate dimensionalities are reached along many different
+    // paths, so without the cache this is exponential.
+    let mut cache = BTreeMap::new();
+    factorize_cached(value, quantities, &mut cache)
+        .into_iter()
+        .collect()
+}
+
+fn factorize_cached(
+    value: &Number,
+    quantities: &BTreeMap<Dimensionality, Rc<String>>,
+    cache: &mut BTreeMap<Dimensionality, Vec<Factors>>,
+) -> Vec<Factors> {
     if value.dimless() {
-        let mut map = BinaryHeap::new();
-        map.push(Factors(0, vec![]));
-        return map;
+        return vec![Factors(0, vec![])];
+    }
+    if let Some(res) = cache.get(&value.unit) {
+        return res.clone();
     }
     let mut candidates: BinaryHeap<Factors> = BinaryHeap::new();
     let value_score = value.complexity_score();
@@ -41,7 +56,7 @@ pub fn factorize(
         if score >= value_score {
             continue;
         }
-        let res = factorize(&res, quantities);
+        let res = factorize_cached(&res, quantities, cache);
         for Factors(score, mut vec) in res {
             vec.push(name.clone());
             vec.sort();
@@ -52,5 +67,7 @@ pub fn factorize(
         candidates = next.into_iter().take(10).collect();
     }
     assert!(candidates.len() <= 10);
-    candidates
+    let res = candidates.into_vec();
+    cache.insert(value.unit.clone(), res.clone());
+    res
 }
